@@ -108,8 +108,31 @@ def py_of(case):
             "  except gfapy.Error as e: print(type(e).__name__)" % (case['orders'], case['version'], case['dialect'], case['vlevel']))
 
 
+def rgfa_documents(ctx):
+    """the rGFA dialect is GFA1: a complete rGFA document is accepted as gfa1, the same content with any GFA2 construct, a
+    GFA2 header or version=gfa2 is refused with VersionError, in every order of the lines, through the constructor"""
+    g = impl.gfapy()
+    s1 = ['S\ts1\tACGT\tSN:Z:chr1\tSO:i:0\tSR:i:0', 'S\ts2\tGGTT\tSN:Z:chr1\tSO:i:4\tSR:i:0']
+    s2 = ['S\ts1\t4\tACGT\tSN:Z:chr1\tSO:i:0\tSR:i:0', 'S\ts2\t4\tGGTT\tSN:Z:chr1\tSO:i:4\tSR:i:0']
+    docs = [('gfa1', s1 + ['L\ts1\t+\ts2\t+\t0M\tSR:i:0'], {}), ('gfa1', s1, {'version': 'gfa1'}),
+            ('VersionError', s2, {}), ('VersionError', ['H\tVN:Z:2.0'] + s1, {}), ('VersionError', s1 + ['E\te\ts1+\ts2+\t0\t1\t0\t1\t*'], {}),
+            ('VersionError', s1, {'version': 'gfa2'}), ('VersionError', s1 + ['G\tg\ts1+\ts2-\t5\t*'], {}),
+            ('VersionError', s1 + ['U\tu\ts1 s2'], {})]
+    for want, doc, kw in docs:
+        for order in itertools.permutations(doc):
+            r = impl.outcome(lambda: g.Gfa(list(order), dialect='rgfa', **kw).version)
+            got = r[1] if r[0] == 'ok' else r[1][1]
+            case = {'kind': 'doc', 'orders': [list(order)], 'version': kw.get('version'), 'dialect': 'rgfa', 'vlevel': 1, 'full': True}
+            ctx.count(case, want == 'VersionError')
+            if got != want:
+                ctx.violation('failing-input', 'an rGFA document %s' % ('with a GFA2 construct is not refused with VersionError' if want == 'VersionError'
+                                                                         else 'in GFA1 is not accepted as gfa1'), case, want, got, python=py_of(case))
+                break
+
+
 def run(ctx, deep, model_ok):
     rng = ctx.rng
+    rgfa_documents(ctx)
     names_all = list(POOL)
     n = 500 if deep else 120
     terms, metas = [], []
